@@ -114,6 +114,13 @@ type EnumSchema struct {
 var _ RootSchema = (*EnumSchema)(nil)
 
 func (s *EnumSchema) OptionByName(name string) *EnumOption {
+	// a short name may itself begin with the prefix (FOO_ + FOO_BAR), so the
+	// name as given is tried before the prefix is stripped
+	for _, opt := range s.Options {
+		if opt.name == name {
+			return opt
+		}
+	}
 	shortName := strings.TrimPrefix(name, s.NamePrefix)
 	for _, opt := range s.Options {
 		if opt.name == shortName {
